@@ -75,6 +75,9 @@ def check_cp(st, env, name, E, th, ph):
             if ok:
                 exp = s
         case = dict(config=env.config, fn=fn, compound=name, args=list(args))
+        ns = L.noslot(fn, b, *args)
+        if ns != got and not (ns != ns and got != got):
+            return ("noslot-differs:" + fn, case, got, ns)
         if exp is None:
             st.cls("cp_error_expected")
             if err is None or got != 0.0:
@@ -104,6 +107,9 @@ def check_refr(st, env, name, E, rho):
     im_, eim = L.call("Refractive_Index_Im", b, E, rho)
     cx, ecx = L.call("Refractive_Index", b, E, rho)
     case = dict(config=env.config, compound=name, E=E, density=rho)
+    nre, nim, ncx = L.noslot("Refractive_Index_Re", b, E, rho), L.noslot("Refractive_Index_Im", b, E, rho), L.noslot("Refractive_Index", b, E, rho)
+    if (nre, nim, ncx.re, ncx.im) != (re_, im_, cx.re, cx.im):
+        return ("noslot-differs:Refractive_Index", case, [re_, im_, cx.re, cx.im], [nre, nim, ncx.re, ncx.im])
     exp_re = exp_im = None
     S = M = None
     if comp is not None and E > 0:
@@ -176,8 +182,9 @@ def check_refr(st, env, name, E, rho):
     return None
 
 
-E_ST = hs.one_of(hs.floats(0.0, 3.0).map(lambda x: 10.0 ** x), hs.floats(0.0, 3.0).map(lambda x: 10.0 ** x),
-                 hs.sampled_from([1.0, 1000.0, 0.0, -1.0, 0.5, 2000.0, 999.999, 1.0000001]))
+# the tables of the elemental functions have different ranges (Fi/Fii from 1 eV, cross sections 1 keV..1 MeV, CS_Energy to 20 MeV): cover them all
+E_ST = hs.one_of(hs.floats(0.0, 3.0).map(lambda x: 10.0 ** x), hs.floats(-3.0, 4.4).map(lambda x: 10.0 ** x), hs.floats(-1.0, 0.5).map(lambda x: 10.0 ** x),
+                 hs.sampled_from([1.0, 1000.0, 0.0, -1.0, 0.5, 2000.0, 999.999, 1.0000001, 0.109, 0.2, 0.001]))
 T_ST = hs.one_of(hs.floats(-2 * PI, 2 * PI), hs.sampled_from([0.0, PI / 2, PI, 1e-8, PI / 4]))
 RHO_ST = hs.one_of(hs.floats(1e-4, 25.0), hs.sampled_from([0.0, -1.0, 1.0, 2.5]))
 
